@@ -51,6 +51,7 @@ func c04TextMatchKindGuarded(c *Ctx, p *core.Prog) int {
 			comparesText[fn] = true
 		}
 	}
+	quotedTypes := c04QuotedTypes(p)
 	n := 0
 	for _, fn := range fns {
 		var tp *ssa.Parameter
@@ -113,6 +114,24 @@ func c04TextMatchKindGuarded(c *Ctx, p *core.Prog) int {
 			s, ok := fieldPath(v, 0)
 			return ok && hasSuffix(s, ".Type")
 		}
+		isQuote := func(v ssa.Value) bool {
+			s, ok := fieldPath(v, 0)
+			return ok && (hasSuffix(s, ".Quote") || hasSuffix(s, ".QuoteStyle"))
+		}
+		// blocks reached after a test of the token's Quote (either side: the code looked at it)
+		quoteSeen := map[*ssa.BasicBlock]bool{}
+		for _, b := range fn.Blocks {
+			if iff, ok := b.Instrs[len(b.Instrs)-1].(*ssa.If); ok {
+				if bo, ok := iff.Cond.(*ssa.BinOp); ok && (isQuote(bo.X) || isQuote(bo.Y)) {
+					for _, sc := range b.Succs {
+						if len(sc.Preds) == 1 {
+							quoteSeen[sc] = true
+						}
+					}
+				}
+			}
+		}
+		typedConst := map[*ssa.BasicBlock]int64{}
 		// blocks in which the token's Type is positively established
 		typed := map[*ssa.BasicBlock]bool{}
 		for _, b := range fn.Blocks {
@@ -148,6 +167,27 @@ func c04TextMatchKindGuarded(c *Ctx, p *core.Prog) int {
 				}
 			}
 			typed[sc] = true
+			if k, ok := core.ConstInt(bo.X); ok {
+				typedConst[sc] = k
+			} else if k, ok := core.ConstInt(bo.Y); ok {
+				typedConst[sc] = k
+			}
+		}
+		// established as a type that also covers quoted spellings, and the quoting not looked at
+		needsQuote := func(b *ssa.BasicBlock) string {
+			for t := range typed {
+				if t == b || t.Dominates(b) {
+					if fnName, shared := quotedTypes[typedConst[t]]; shared {
+						for q := range quoteSeen {
+							if q == b || q.Dominates(b) {
+								return ""
+							}
+						}
+						return fnName
+					}
+				}
+			}
+			return ""
 		}
 		guarded := func(b *ssa.BasicBlock) bool {
 			for t := range typed {
@@ -188,7 +228,9 @@ func c04TextMatchKindGuarded(c *Ctx, p *core.Prog) int {
 					continue // one report per function is enough; the first unguarded site is named
 				}
 				key := core.FnName(fn) + sprintf("|text#%d", seq)
-				if guarded(b) {
+				if guarded(b) && needsQuote(b) != "" {
+					r.Violate("text-match-kind-guarded", key, p.Pos(in.Pos()), "this code "+what+" for tokens of a Type that "+needsQuote(b)+" also gives to quoted spellings, without looking at the token's Quote: an identifier written in quotes and spelled like a keyword is re-typed as that keyword")
+				} else if guarded(b) {
 					r.OK("text-match-kind-guarded", key, p.Pos(in.Pos()), "the token's Type is established where its text is matched")
 				} else {
 					r.Violate("text-match-kind-guarded", key, p.Pos(in.Pos()), "this code "+what+" without having established the token's Type: a string literal or a quoted identifier spelled like a keyword ('order by', \"left join\") is re-typed as that keyword and the statement no longer parses")
